@@ -3,6 +3,12 @@ C13 — Method cross-references are exact and symmetric.
 Model: AgVerif/Model/Xref.lean (`analyse`, `callGraph`), specification: AgVerif/Spec/Xref.lean,
 generated opcode tests: AgVerif/Gen/XrefOps.lean.  All theorems hold for every program (any number of
 DEX files, classes, methods, instructions).
+Scope of the statements: the model identifies a Python object with the key the code registers it under
+(class name; (class, name, descriptor); string value).  On programs whose class names are distinct across
+the added DEX files (`AgVerif.C16.DistinctClassNames`; C16 proves that the keying is injective there) this
+mirrors the code.  For a program with a repeated class name the theorems below are statements about the
+key-merged model only (`AgVerif.C16.duplicate_class_is_merged`): the code keeps the ClassAnalysis of the DEX
+added last; that case is judged on the real code, on objects, by the duplicate-class stream of the harness.
 -/
 import AgVerif.Proof.XrefView
 
